@@ -407,7 +407,9 @@ def schema_elements(cols):
         sts = col_structs(c)
         for st in sts:
             out.append(pt.SchemaElement(name=st["name"], repetition_type=REP if st.get("rep") else (OPT if st["opt"] else REQ),
-                                        num_children=1, i32=1))
+                                        num_children=1, i32=1,
+                                        converted_type=({"LIST": pt.ConvertedType.LIST, "MAP": pt.ConvertedType.MAP}[st["annot"]]
+                                                        if st.get("annot") else None)))
         if sts:
             gname = c["name"].split(".", len(sts))[-1]
         if c["kind"] == "list" and c.get("legacy2"):
